@@ -163,7 +163,7 @@ Example ex_final :
    Some (Releasing, Some 2%positive); Some (Pipelined, None)] /\
   (copy_status s 1 1, copy_status s 1 2, copy_status s 2 3, copy_status s 2 4) =
   (Some Allocated, Some Releasing, Some Releasing, None) /\
-  dom (jobs s) = {[1%positive]} /\
+  map fst (map_to_list (jobs s)) = [1%positive] /\
   length (hlog s) = 21%nat /\
   sess_sameb ex_sess s = false.
 Proof. vm_compute. repeat split; reflexivity. Qed.
